@@ -18,7 +18,7 @@ META = dict(
     "IpController, CoAPController (real AsyncServiceInfo objects), BleController (_device_detected with real BLEDevice/AdvertisementData; no pairing / pairing with cached state / pairing without cached "
     "state) and the aggregate Controller; oracle: a waiter completes with the discovery iff a valid advertisement for its id was processed while it waited or before it started, at that instant, else "
     "AccessoryNotFoundError exactly at start+timeout; callbacks never raise.  Parsing: every truncation of valid TXT blobs and manufacturer data, key/id casings, address lists mixing link-local, "
-    "unspecified, IPv4, IPv6 in every order, out-of-range numeric fields -> lower-cased id, IPv4 first, skipped addresses, reported c#/s#/sf/ci, malformed ignored Re-advertisements differing only in flags / category must show in the controller's discoveries; mDNS state changes also arrive through the zeroconf browser callback (0.5 s debounce, goodbye inside the window, re-announcement) against a model of the debounce. Also: two independent zeroconf controllers in one process, behind separate browsers and behind one shared browser; the aggregate controller with a pairing loaded on one of its transports; two advertisements within one loop iteration while the connector sleeps. Also: a service name whose record is unusable for a while and changes by Updated (not Removed + Added); waiters with timeout 0.",
+    "unspecified, IPv4, IPv6 in every order, out-of-range numeric fields -> lower-cased id, IPv4 first, skipped addresses, reported c#/s#/sf/ci, malformed ignored Re-advertisements differing only in flags / category must show in the controller's discoveries; mDNS state changes also arrive through the zeroconf browser callback (0.5 s debounce, goodbye inside the window, re-announcement) against a model of the debounce. Also: two independent zeroconf controllers in one process, behind separate browsers and behind one shared browser; the aggregate controller with a pairing loaded on one of its transports; two advertisements within one loop iteration while the connector sleeps. Also: a service name whose record is unusable for a while and changes by Updated (not Removed + Added); waiters with timeout 0. Scanner frames also meet pairings loaded over caches with / without broadcast key and state number.",
     note="environment starts at AsyncServiceInfo / BLEDevice+AdvertisementData objects; zeroconf's own wire parsing and bleak are outside",
     design_ref="DESIGN.md §4 C19",
     rule="state = canonical (waiter states, discoveries, registered futures, timers); transition = one schedule event or loop iteration; evaluation = one execution or one parsed advertisement",
